@@ -20,7 +20,7 @@
 (*   score kinds: 0 no column, 1 NaN, 2 four-decimal integer a, 3 rational *)
 (*   a/b, 4 integer a, 9 anything else.                                    *)
 (***************************************************************************)
-EXTENDS Semantics, Json, IOUtils
+EXTENDS Filters, Json, IOUtils
 
 Traces == JsonDeserialize(IOEnv.TRACE_FILE)
 
@@ -65,6 +65,11 @@ MayHave(T, a, b) ==
             THEN (* C14: candidates only through a shared token *)
                  IF IsED(T) THEN ShareQgram(a.v, b.v, T.q, T.pad = 1)
                  ELSE Ov(TokSet(a), TokSet(b)) > 0
+            ELSE IF T.filt = "SIZE"
+            THEN (* C14: the size filter drops what the token counts alone exclude *)
+                 IF IsED(T) THEN Abs(Len(Qgrams(a.v, T.q, T.pad = 1)) - Len(Qgrams(b.v, T.q, T.pad = 1))) <= EDThreshold(Thr(T))
+                 ELSE IF T.meas = "OVERLAP" THEN TRUE
+                 ELSE ~MustDropBySize(T.meas, Thr(T), Cardinality(TokSet(a)), Cardinality(TokSet(b)))
             ELSE TRUE
 
 ScoreOK(T, a, b, s) ==
